@@ -175,6 +175,7 @@ class StmtMixin:
         pre = self.flush(st)
         frame = Frame(fv.node, fv.file, fv.cls, fr.contract, fr.depth + 1)
         frame.spec = None
+        frame.try_depth = list(fr.try_depth)
         if fr.depth + 1 > self.max_inline_depth:
             raise Unsupported('inline depth exceeded at %s' % fv.qualname)
         env = self.bind_params(fv.node, args, kwargs, st, frame, fv.cls)
@@ -384,6 +385,17 @@ class StmtMixin:
         return [('continue', st, None)]
 
     def x_With(self, node, st, fr):
+        # `with cython.boundscheck(False):` and friends: a directive block
+        if len(node.items) == 1 and node.items[0].optional_vars is None:
+            txt = ast.unparse(node.items[0].context_expr)
+            for k in ('boundscheck', 'wraparound', 'cdivision', 'initializedcheck', 'nonecheck'):
+                if txt.startswith('cython.%s(' % k):
+                    saved = dict(fr.flags)
+                    fr.flags = dict(fr.flags, **{k: txt.endswith('(True)')})
+                    try:
+                        return self.exec_block(node.body, st, fr)
+                    finally:
+                        fr.flags = saved
         raise Unsupported('with statement')
 
     def x_FunctionDef(self, node, st, fr):
